@@ -240,6 +240,7 @@ func c01One(run *ev.Run, p c01P) {
 	type exp struct {
 		netfn, cmd byte
 		body       []byte
+		code       byte
 	}
 	var sent []exp
 	busyOnce := false
@@ -254,8 +255,24 @@ func c01One(run *ev.Run, p c01P) {
 			return 0xc0, nil, true
 		}
 		body := rbytes(r, 1+r.Intn(40))
-		sent = append(sent, exp{e.NetFn, e.Cmd, body})
-		return 0, body, true
+		if r.Intn(6) == 0 {
+			// a long answer (a FRU or SEL read): up to what a 512-byte receive buffer can take
+			body = rbytes(r, 180+r.Intn(250))
+		}
+		code := byte(0)
+		if r.Intn(5) == 0 {
+			// the BMC refuses or fails the command: that, too, is a response for the caller (only
+			// 0xC0 and 0xC3 mean "ask again")
+			for code == 0 || code == 0xc0 || code == 0xc3 {
+				code = byte(r.Intn(256))
+			}
+			if r.Intn(4) == 0 {
+				code = []byte{0xd4, 0xd0, 0xd1, 0xd2, 0xd3, 0xd5, 0xc1, 0xc2, 0xc4, 0xff, 0x80, 0x01}[r.Intn(12)]
+			}
+			body = nil
+		}
+		sent = append(sent, exp{e.NetFn, e.Cmd, body, code})
+		return code, body, true
 	}
 	suites := []ipmi.CipherSuite{libSuite(p.Suite)}
 	var csServer *refbmc.CipherSuiteServer
@@ -443,9 +460,13 @@ func c01One(run *ev.Run, p c01P) {
 			run.Violation("C01:panic-in-command:"+panicSite(stack), fmt.Sprintf("SendCommand panicked on suite %v: %v\n%s", p.Suite, pv, trimStack(stack)), cs, nil)
 			return
 		}
-		if err != nil || code != 0 {
+		wantCode := byte(0)
+		if len(sent) > 0 {
+			wantCode = sent[len(sent)-1].code
+		}
+		if err != nil || byte(code) != wantCode {
 			key := "C01:command-rejected:" + p.Suite.String()
-			run.Violation(key, fmt.Sprintf("command %d on a fresh session failed: code=%v err=%v; BMC problems: %v", i, code, err, problems(b)), cs, nil)
+			run.Violation(key, fmt.Sprintf("command %d on a fresh session: code=%v err=%v, the BMC answered with completion code %#x; BMC problems: %v", i, code, err, wantCode, problems(b)), cs, nil)
 			return
 		}
 		if env != nil {
@@ -462,7 +483,7 @@ func c01One(run *ev.Run, p c01P) {
 			run.Violation("C01:command-not-seen", fmt.Sprintf("BMC handled %d commands after %d calls", len(sent), i+1), cs, nil)
 			return
 		}
-		if !bytes.Equal(cmd.Rsp.Data, sent[i].body) || sent[i].cmd != byte(0x40+i%16) {
+		if (sent[i].code == 0 && !bytes.Equal(cmd.Rsp.Data, sent[i].body)) || sent[i].cmd != byte(0x40+i%16) {
 			run.Violation("C01:wrong-response-body", fmt.Sprintf("caller got %x, BMC sent %x", cmd.Rsp.Data, sent[i].body), cs, nil)
 			return
 		}
